@@ -65,17 +65,17 @@ type Opts struct {
 	// SplitTxData: multi-frame transactions also get their *transaction* payload split (the server
 	// paths support it; the block-by-block indexers (gsfa, split-car) only accept single-frame tx data,
 	// as all real writers produce)
-	SplitTxData bool
-	MaxFrames       int // max frames per multi-frame payload (default 8)
-	FanOut          int // next-link fan-out (0 = random 1..10)
-	BigOneIn        int // 1/k transactions carry a big instruction payload => section > 16 KiB (3-byte varint)
-	TinyOneIn       int // 1/k transactions have no metadata and minimal size
-	RewardsOneIn    int // 1/k blocks have a rewards node (0 = never)
-	RootSha512      bool
-	LegacyFnvOneIn  int // 1/k multi-frame payloads use the legacy FNV-1a checksum
-	VoteOneIn       int
-	FailOneIn       int
-	V0OneIn         int
+	SplitTxData    bool
+	MaxFrames      int // max frames per multi-frame payload (default 8)
+	FanOut         int // next-link fan-out (0 = random 1..10)
+	BigOneIn       int // 1/k transactions carry a big instruction payload => section > 16 KiB (3-byte varint)
+	TinyOneIn      int // 1/k transactions have no metadata and minimal size
+	RewardsOneIn   int // 1/k blocks have a rewards node (0 = never)
+	RootSha512     bool
+	LegacyFnvOneIn int // 1/k multi-frame payloads use the legacy FNV-1a checksum
+	VoteOneIn      int
+	FailOneIn      int
+	V0OneIn        int
 	// FailOtherKindOneIn: 1/k of the failed transactions fail with AccountInUse instead of InstructionError/Custom
 	FailOtherKindOneIn int
 	NoPosIndexOneIn    int // not used by default (0): transactions always carry a position index
